@@ -139,6 +139,40 @@ type c11Scenario struct {
 	// another value (O) are repeated as they are, so both copies always describe the same entry.
 	Restate map[string]int `json:"restate,omitempty"`
 	RSpell  map[string]int `json:"rspell,omitempty"`
+	// Svc: the name of the service that carries the default-able attributes ("" = `a`).  Service keys are user
+	// defined; a key that looks like an extension (`x-a`) or needs escaping in a tree.Path (`a.b`) is still a service.
+	Svc string `json:"svc,omitempty"`
+}
+
+func (sc c11Scenario) svc() string {
+	if sc.Svc == "" {
+		return "a"
+	}
+	return sc.Svc
+}
+
+// path: a site path written for service `a`, for the service of this scenario
+func (sc c11Scenario) path(p []any) []any {
+	if len(p) >= 2 && p[0] == "services" && p[1] == "a" && sc.Svc != "" {
+		q := append([]any{}, p...)
+		q[1] = sc.Svc
+		return q
+	}
+	return p
+}
+
+var c11SvcNames = []string{"", "x-a", "x-", "a.b"}
+
+// c11SvcFor: override.mergeMappings REPLACES (does not merge) every mapping key that starts with `x-`, wherever it
+// is — also a service `x-a` stated in two config files: the later file's service wins as a whole and the image, the
+// ports … of the earlier one are gone (loader.processExtensions is careful about user-defined keys, the merge is
+// not).  That is a rule of the merge (override/, C04's model), not of the defaults: it is handed over to C04 (see
+// design/C11.md, side findings) and the scenarios whose two layers are two config FILES use the dotted key instead.
+func c11SvcFor(origin, name string) string {
+	if (origin == "override" || origin == "override3") && strings.HasPrefix(name, "x-") {
+		return "a.b"
+	}
+	return name
 }
 
 // c11TwoLayers: origins in which service `a` is assembled from two files / services
@@ -511,17 +545,17 @@ func c11Build(sc c11Scenario, implicit bool) (files map[string]string, configFil
 		// a single file: both layers are the same mapping (leaves never collide)
 		a := c11MergeTrees(a0, a1).(map[string]any)
 		a["image"] = "i"
-		others["a"] = a
+		others[sc.svc()] = a
 		main["services"] = others
 		merge(main, resA)
 		merge(main, resMain)
 		configFiles = []string{"compose.yaml"}
 	case "override", "override3":
 		a0["image"] = "i"
-		others["a"] = a0
+		others[sc.svc()] = a0
 		main["services"] = others
 		merge(main, resA)
-		over := map[string]any{"services": map[string]any{"a": a1}}
+		over := map[string]any{"services": map[string]any{sc.svc(): a1}}
 		// resources: the named ones move to the override file
 		merge(over, resMain)
 		main["networks"] = map[string]any{"other": emptyRes()}
@@ -536,7 +570,7 @@ func c11Build(sc c11Scenario, implicit bool) (files map[string]string, configFil
 			if sc.NoDefUse || sc.OthersOff {
 				c0["networks"] = []any{"other"}
 			}
-			main = map[string]any{"services": map[string]any{"a": map[string]any{"image": "i", "depends_on": []any{"c0"}}, "c0": c0}}
+			main = map[string]any{"services": map[string]any{sc.svc(): map[string]any{"image": "i", "depends_on": []any{"c0"}}, "c0": c0}}
 			if sc.NoDefUse || sc.OthersOff {
 				main["networks"] = map[string]any{"other": emptyRes()}
 			}
@@ -561,7 +595,7 @@ func c11Build(sc c11Scenario, implicit bool) (files map[string]string, configFil
 			a0["extends"] = map[string]any{"service": "base0", "file": "base.yaml"}
 			files["base.yaml"] = c11YAML(map[string]any{"services": map[string]any{"base0": a1}})
 		}
-		others["a"] = a0
+		others[sc.svc()] = a0
 		main["services"] = others
 		merge(main, resA)
 		merge(main, resMain)
@@ -569,7 +603,7 @@ func c11Build(sc c11Scenario, implicit bool) (files map[string]string, configFil
 	case "include":
 		a := c11MergeTrees(a0, a1).(map[string]any)
 		a["image"] = "i"
-		others["a"] = a
+		others[sc.svc()] = a
 		inc := map[string]any{"services": others}
 		merge(inc, resA)
 		inc["networks"] = map[string]any{"other": emptyRes()}
@@ -772,7 +806,7 @@ func c11RealMeta(raw json.RawMessage) any {
 			b, _ := json.Marshal(s.Oth)
 			json.Unmarshal(b, &want)
 		}
-		got, ok := c11Get(exp, s.Path)
+		got, ok := c11Get(exp, sc.path(s.Path))
 		if !ok || !reflect.DeepEqual(got, want) {
 			res.Failed = append(res.Failed, c11Check{"clobbered", s.ID + "@" + sc.Origin, fmt.Sprintf("%s was written as %v but the project has %v", s.ID, want, got)})
 		}
@@ -801,7 +835,7 @@ func c11RealMeta(raw json.RawMessage) any {
 				// with a `format` the project renders the entry in long form (the short form is path-only)
 				want = map[string]any{"path": "$ROOT/e.env", "required": true, "format": "c11raw"}
 			}
-			got, ok := c11Get(exp, path)
+			got, ok := c11Get(exp, sc.path(path))
 			if s.ID == "build.dockerfile" && sc.Inline {
 				if ok {
 					res.Failed = append(res.Failed, c11Check{"default-value", s.ID + "@" + sc.Origin, fmt.Sprintf("dockerfile_inline is set, yet the project has dockerfile %v", got)})
@@ -818,18 +852,18 @@ func c11RealMeta(raw json.RawMessage) any {
 			if sc.Dep2 == 2 && c11Refiner(sc.Origin) >= 0 {
 				want = map[string]any{"condition": "service_healthy", "required": false}
 			}
-			got, _ := c11Get(exp, []any{"services", "a", "depends_on", "b2"})
+			got, _ := c11Get(exp, sc.path([]any{"services", "a", "depends_on", "b2"}))
 			if !reflect.DeepEqual(got, any(want)) {
 				res.Failed = append(res.Failed, c11Check{"clobbered", "depends_on.b2@" + sc.Origin, fmt.Sprintf("depends_on.b2 should be %v but is %v", want, got)})
 			}
 			// the neighbour that no layer ever refines keeps the defaults
-			got, _ = c11Get(exp, []any{"services", "a", "depends_on", "b3"})
+			got, _ = c11Get(exp, sc.path([]any{"services", "a", "depends_on", "b3"}))
 			if !reflect.DeepEqual(got, any(dflt)) {
 				res.Failed = append(res.Failed, c11Check{"default-value", "depends_on.b3@" + sc.Origin, fmt.Sprintf("depends_on.b3 is written without attributes in every layer: it should be %v but is %v", dflt, got)})
 			}
 		}
 		if sc.Origin == "override3" {
-			got, _ := c11Get(exp, []any{"services", "a", "depends_on", "c0"})
+			got, _ := c11Get(exp, sc.path([]any{"services", "a", "depends_on", "c0"}))
 			if !reflect.DeepEqual(got, any(dflt)) {
 				res.Failed = append(res.Failed, c11Check{"default-value", "depends_on.c0@" + sc.Origin, fmt.Sprintf("depends_on.c0 (short form in the first file) should be %v but is %v", dflt, got)})
 			}
@@ -965,6 +999,9 @@ func c11RandomScenario(r *rand.Rand) c11Scenario {
 		}
 	}
 	sc.NullRes = r.Intn(2) == 0
+	if r.Intn(4) == 0 {
+		sc.Svc = c11SvcFor(sc.Origin, c11SvcNames[1+r.Intn(len(c11SvcNames)-1)])
+	}
 	if c11TwoLayers(sc.Origin) {
 		for _, u := range c11RestateUnits {
 			if r.Intn(3) == 0 {
@@ -1066,8 +1103,8 @@ func c11RealSkipDefaults(raw json.RawMessage) any {
 				path = s.Path
 			}
 		}
-		x, okx := c11Get(ref, path)
-		y, oky := c11Get(got, path)
+		x, okx := c11Get(ref, sc.path(path))
+		y, oky := c11Get(got, sc.path(path))
 		if okx != oky || !reflect.DeepEqual(x, y) {
 			res.Failed = append(res.Failed, c11Check{"skip-default-values", id + "@" + sc.Origin,
 				fmt.Sprintf("loaded with SkipDefaultValues, %s is %v (present=%v) when service a comes from the main file but %v (present=%v) when it comes from origin %s", id, x, okx, y, oky, sc.Origin)})
@@ -1267,10 +1304,43 @@ func c11Oracle(ctx *core.Ctx) {
 			ctx.Add("c11.meta", sc)
 		}
 	}
+	// the carrier of the attributes has a key that looks like an extension (`x-a`, `x-`) or that tree.Path escapes
+	// (`a.b`): it is a service like any other, so every default applies; all-implicit vs all-written-out, and each
+	// site of the defaults walker alone
+	for _, origin := range c11Origins {
+		for _, name := range c11SvcNames[1:] {
+			for layer := 0; layer < 2; layer++ {
+				mk := func() c11Scenario {
+					sc := c11NewScenario(origin)
+					sc.Svc = c11SvcFor(origin, name)
+					for _, k := range c11LayerKeys {
+						sc.Layer[k] = layer
+					}
+					return sc
+				}
+				all := mk()
+				for _, s := range c11Sites {
+					all.Spell[s.ID] = spD
+				}
+				ctx.Count("meta-exh-service-key:" + name)
+				ctx.Add("c11.meta", all)
+				for _, id := range c11SDVSites {
+					sc := mk()
+					sc.Spell[id] = spD
+					ctx.Count("meta-exh-service-key:" + name)
+					ctx.Add("c11.meta", sc)
+				}
+				sk := mk()
+				ctx.Count("skip-default-values:service-key:" + name)
+				ctx.Add("c11.skipDefaults", sk)
+			}
+		}
+	}
 	// all subsets written explicitly with the default / with another value: seeded random
 	for i := 0; i < ctx.Pick(1500, 40000); i++ {
 		sc := c11RandomScenario(ctx.Rng)
 		ctx.Count("meta-random")
+		ctx.Count("meta-service-key:" + sc.svc())
 		ctx.Count("meta-origin:" + sc.Origin)
 		ctx.Add("c11.meta", sc)
 	}
